@@ -3,6 +3,7 @@ ops of the Lean L2 channel model (sender emissions byte-exact incl. RC4 position
 checkpointed window/reassembly/delivery state), plus the property oracle on the real code."""
 import os, random, multiprocessing, traceback
 import prudp_session as ps
+import c01_slowlink
 
 LEVEL = "proof"
 
@@ -285,10 +286,12 @@ def stale_duplicate(sess):
     return None
 
 
-def to_lines(sess, name):
-    """driver lines + expectations for one session"""
+def to_lines(sess, name, late_acks=False):
+    """driver lines + expectations for one session. A message whose fragments left the endpoint one after the other is one `send`;
+    a message with another reliable packet of its substream (a keep-alive PING, a DISCONNECT) numbered between two of its fragments
+    is `begin` followed by `frag` / `ping` / `disc` lines in the real order of emission (the model's send is a loop, too)."""
     cfg = sess.cfg
-    ev = ps.abstract(sess)
+    ev = ps.abstract(sess, late_acks=late_acks)
     keys = ps.rc4_keys(cfg, sess.session_key)
     lines, expect = [], []     # expect: (kind, payload) per line
     sent_lists = {}
@@ -312,23 +315,37 @@ def to_lines(sess, name):
         msgs = list(sent_lists.get((d, sub), []))
         skip = 0
         pend = []
+        loop = 0           # fragments of the message begun with `begin` that are still to be emitted
         recv_side = "s" if d == "c" else "c"
+        emits = [e for e in events if e[0] == "emit"]
+        epos = 0
         for e in events:
             if e[0] == "emit":
+                epos += 1
                 _, j, pid, kind, frag, payload = e
                 wire = "%d:%s:%d:%s" % (pid, kind, frag if kind == "data" else 0, payload.hex() if payload else "-")
                 if skip:
                     pend.append(wire); skip -= 1
                     if not skip:
-                        expect[-1] = ("wires", " ".join(pend))
+                        expect[send_at] = ("wires", " ".join(pend))
+                    continue
+                if kind == "data" and loop:
+                    lines.append("frag %s" % ch); expect.append(("wires", wire)); loop -= 1
                     continue
                 if kind == "data":
                     if not msgs:
                         lines.append("send %s -" % ch); expect.append(("wires", "UNEXPECTED real data wire " + wire)); continue
                     m = msgs.pop(0)
                     k = (len(m) + fs - 1) // fs
+                    if any(x[3] != "data" for x in emits[epos:epos + k - 1]):
+                        # something else was numbered before the message's last fragment
+                        lines.append("begin %s %s" % (ch, m.hex())); expect.append(("eq", "pending=%d" % k))
+                        lines.append("frag %s" % ch); expect.append(("wires", wire))
+                        loop = k - 1
+                        continue
                     lines.append("send %s %s" % (ch, m.hex()))
                     pend = [wire]; skip = k - 1
+                    send_at = len(expect)        # (arrivals may be processed while the fragments of this message are still leaving)
                     expect.append(("wires", wire if not skip else None))
                 else:
                     lines.append("%s %s" % (kind, ch)); expect.append(("wires", wire))
@@ -341,10 +358,31 @@ def to_lines(sess, name):
                 if sub >= len(r["win"]): continue
                 nxt, buf = r["win"][sub]
                 lines.append("state %s" % ch)
-                expect.append(("state", "next=%d buf=%s frag=%s closed=%d out=%s" % (
+                expect.append(("state-slow" if late_acks else "state", "next=%d buf=%s frag=%s closed=%d out=%s" % (
                     nxt, ",".join(map(str, buf)), r["frag"][sub].hex() or "-", 1 if r["state"] == 3 else 0,
                     ",".join(m.hex() for m in r["got"][sub]))))
     return lines, expect
+
+
+def line_ok(kind, exp, out):
+    """one driver answer against what the real session showed"""
+    if kind == "ok": return out == "ok"
+    if kind == "wires": return exp is None or out == exp
+    if kind == "eq": return out == exp
+    if kind == "arrive": return out.startswith("ok=1")
+    if kind in ("state", "state-slow"):
+        strip = lambda x: [p for p in x.split(" ") if not p.startswith(("decpos=", "nrel=", "sent=", "closed="))]
+        # the model closes only through a released DISCONNECT; the real endpoint may also have given up (timeouts)
+        if "closed=1" in out and "closed=0" in exp: return False
+        if kind == "state-slow" and "closed=1" in exp and "closed=0" in out:
+            # slow sockets: the endpoint gave up while its receive loop was inside the (slow) send of an acknowledgement; the packet
+            # being acknowledged still goes through the window, but nothing can be delivered to the closed endpoint any more:
+            # same window, and what was delivered is a prefix of what the model delivered
+            g, e = dict(p.split("=", 1) for p in strip(out)), dict(p.split("=", 1) for p in strip(exp))
+            go, eo = [x for x in g["out"].split(",") if x], [x for x in e["out"].split(",") if x]
+            return g["next"] == e["next"] and g["buf"] == e["buf"] and eo == go[:len(eo)]
+        return strip(out) == strip(exp)
+    return False
 
 
 def unreliable_ack_collision(sess):
@@ -422,6 +460,9 @@ def judge(sess, regime):
 def work(args):
     idx, seed, quick = args
     kwargs = {}
+    if isinstance(seed, str) and seed.startswith("slowlink:"):
+        # keep-alive PINGs between the fragments of a message (slow links x small ping_timeout), see c01_slowlink.py
+        return c01_slowlink.work(idx, seed, quick, judge, to_lines)
     if isinstance(seed, str) and seed.startswith("concurrent-senders"):
         try:
             bad = concurrent_senders(int(seed.split(":")[1]))
@@ -477,10 +518,19 @@ def run(ctx):
                 "message sizes around fragment multiples, credentials on/off, start ids near the 16-bit wrap, and a fate per datagram "
                 "(regime budget: ≤ resend_limit drops, delays < 0.2·resend_timeout, duplicates; regime hostile: 5–40 % loss, duplication, "
                 "delays up to 2.5·resend_timeout); each direction/substream is replayed through the Lean channel model (emitted wires "
-                "byte-exact, arrivals, checkpoint states); distinct non-trivial = sessions with ≥1 delivered message and ≥1 fault or fragment")
+                "byte-exact, arrivals, checkpoint states); distinct non-trivial = sessions with ≥1 delivered message and ≥1 fault or fragment; "
+                "slow-link family (real code only): uplinks that take time per datagram (blocking socket / serial link of finite bandwidth) x "
+                "ping_timeout of 0.4..4 fragment times x messages of 3..40 fragments x v0/v1/lite x c->s, s->c, both x no faults / within "
+                "budget / hostile, so that keep-alive PINGs are numbered and sent between the fragments of one message; non-trivial there = "
+                "≥1 PING inside a message")
     directed = [(100000 + i, c[0], quick) for i, c in enumerate(directed_cases())]
     directed += [(100100 + i, "concurrent-senders:%d" % i, quick) for i in range(16 if quick else 200)]
     seeds = directed[::-1] + [(i, ctx.rng.getrandbits(48), quick) for i in range(n)]
+    # slow links x small ping_timeout: 64 consecutive indices = the full product link profile x direction x fault regime, 320 = that
+    # times the encodings (drawn after the seeds above: those stay what they were for a given VERIF_SEED)
+    nslow = 128 if quick else 1920
+    off = ctx.rng.randrange(320)
+    seeds += [(200000 + k, "slowlink:%d:%d" % (off + k, ctx.rng.getrandbits(48)), quick) for k in range(nslow)]
     with multiprocessing.Pool(min(16, os.cpu_count() or 4)) as pool:
         results = pool.map(work, seeds, chunksize=1 if quick else 4)
     drv = ctx.driver()
@@ -497,14 +547,7 @@ def run(ctx):
         outs = drv.batch(lines) if lines else []
         sess_diff = 0
         for line, out, (kind, exp) in zip(lines, outs, expect):
-            ok = True
-            if kind == "ok": ok = out == "ok"
-            elif kind == "wires": ok = exp is None or out == exp
-            elif kind == "arrive": ok = out.startswith("ok=1")
-            elif kind == "state":
-                got = " ".join(p for p in out.split(" ") if not p.startswith(("decpos=", "nrel=", "sent=", "closed=")))
-                # the model closes only through a released DISCONNECT; the real endpoint may also have given up (timeouts)
-                ok = got == " ".join(p for p in exp.split(" ") if not p.startswith("closed=")) and not ("closed=1" in out and "closed=0" in exp)
+            ok = line_ok(kind, exp, out)
             if not ok:
                 sess_diff += 1
                 if first_diff is None:
@@ -512,6 +555,22 @@ def run(ctx):
         ndiff += sess_diff
         ctx.traces_validated += 1 if lines else 0
         nontriv = stats.get("msgs", 0) > 0 and stats.get("tx", 0) > 6
+        sl = stats.get("slowlink")
+        if sl:
+            nontriv = sl["pings_inside"] > 0 and sl["delivered"] > 0
+            agg = ctx.extra.setdefault("slowlink", {"sessions": 0, "sessions_with_ping_inside_a_message": 0, "pings_inside_messages": 0,
+                                                    "messages_with_ping_inside": 0, "most_pings_in_one_message": 0, "longest_message_fragments": 0,
+                                                    "judged_for_liveness": 0, "messages_delivered": 0, "by_profile_direction_faults": {}})
+            agg["sessions"] += 1
+            agg["sessions_with_ping_inside_a_message"] += 1 if sl["pings_inside"] else 0
+            agg["pings_inside_messages"] += sl["pings_inside"]
+            agg["messages_with_ping_inside"] += sl["messages_with_ping_inside"]
+            agg["most_pings_in_one_message"] = max(agg["most_pings_in_one_message"], sl["most_in_one_message"])
+            agg["longest_message_fragments"] = max(agg["longest_message_fragments"], sl["longest_fragments"])
+            agg["judged_for_liveness"] += 1 if regime == "slowlink-budget" else 0
+            agg["messages_delivered"] += sl["delivered"]
+            k3 = "%s/%s/%s" % (sl["profile"], sl["direction"], sl["faults"])
+            agg["by_profile_direction_faults"][k3] = agg["by_profile_direction_faults"].get(k3, 0) + 1
         ctx.case(key=seed, nontrivial=nontriv, tag="%s:%s%s" % (stats.get("enc"), regime, ":connect-failed" if stats.get("connect_error") else ""),
                  sample={"cfg": cfgd, "regime": regime, "datagrams": stats.get("tx"), "model_lines": len(lines), "first_lines": lines[:6]} if idx % 97 == 0 else None)
     ctx.extra["model_line_diffs"] = ndiff
